@@ -4,6 +4,7 @@
 mod c12;
 mod c14;
 mod c15;
+mod c20;
 mod core;
 mod env;
 mod meshgen;
@@ -105,6 +106,7 @@ fn main() {
         "C12" => runner::check(&c12::C12, &opt),
         "C14" => runner::check(&c14::C14, &opt),
         "C15" => runner::check(&c15::C15, &opt),
+        "C20" => runner::check(&c20::C20, &opt),
         _ => {
             eprintln!("unknown or unclaimed property {}", prop);
             2
